@@ -160,39 +160,11 @@ func checkC08(c *Ctx) {
 	// when the operation fails (AEAD failure, counter overflow) no ciphertext or plaintext is released:
 	// every exit that may carry an error returns a nil buffer
 	for _, f := range []*ssa.Function{sealF, openF} {
-		if f == nil {
-			continue
-		}
 		rule := "C08.open"
 		if f == sealF {
 			rule = "C08.seal"
 		}
-		var bad []string
-		nret := 0
-		for _, b := range f.Blocks {
-			ret, ok := b.Instrs[len(b.Instrs)-1].(*ssa.Return)
-			if !ok || len(ret.Results) != 2 {
-				continue
-			}
-			nret++
-			isNil := func(v ssa.Value) bool {
-				k, ok := v.(*ssa.Const)
-				return ok && k.Value == nil
-			}
-			if !isNil(ret.Results[1]) && !isNil(ret.Results[0]) {
-				bad = append(bad, fmt.Sprintf("%s returns %s together with a possibly non-nil error", p.pos(ret.Pos()), descVal(ret.Results[0])))
-			}
-		}
-		construct := fname(f) + ": an exit that may report an error returns no data"
-		switch {
-		case nret == 0:
-			c.undecided(rule, construct, "no return with two results found", p.fnPos(f))
-		case len(bad) > 0:
-			sort.Strings(bad)
-			c.bad(rule, construct, strings.Join(bad, "; "), p.fnPos(f))
-		default:
-			c.ok(rule, construct, fmt.Sprintf("%d exits: each returns either (data, nil) or (nil, error)", nret), p.fnPos(f))
-		}
+		c.noDataOnError(p, rule, f)
 	}
 	// a ciphertext presented out of order (a failed open) must still be openable in its turn: the operation
 	// does not write the caller's ciphertext, plaintext or aad storage (decrypting in place would)
